@@ -47,24 +47,28 @@ func main() {
 	// route: statement-level yields only (the package has no locks and no
 	// generic lock hook)
 	for _, pkg := range []struct {
-		dir   string
-		locks bool
-	}{{filepath.Join("encoding", "osm"), true}, {"route", false}} {
+		dir      string
+		name     string
+		locks    bool // announce Lock/RLock and releases
+		accesses bool // announce shared-map accesses
+	}{{filepath.Join("encoding", "osm"), "osm", true, true}, {"route", "route", false, true}} {
 		announceLocks = pkg.locks
 		files, _ := filepath.Glob(filepath.Join(dst, pkg.dir, "*.go"))
-		trace = pkg.locks
+		trace, traceLocks = pkg.accesses, pkg.locks
+		mapFields, pureFuncs, pkgTypes, imports, unknownSync = map[string]bool{}, map[string]bool{}, map[string]bool{}, map[string]string{}, nil
 		if trace {
 			if err := survey(files); err != nil {
 				fail(err)
 			}
-			if len(unknownSync) > 0 {
+			if len(unknownSync) > 0 && pkg.locks {
 				note := "constructs the happens-before tracking does not cover: " + strings.Join(unknownSync, "; ")
-				gen := fmt.Sprintf("//go:build verif\n// +build verif\n\npackage osm\n\nfunc init() { SimFillInfo = %q }\n", note)
+				gen := fmt.Sprintf("//go:build verif\n// +build verif\n\npackage %s\n\nfunc init() { SimFillInfo = %q }\n", pkg.name, note)
 				if err := os.WriteFile(filepath.Join(dst, pkg.dir, "sim_fill.go"), []byte(gen), 0o644); err != nil {
 					fail(err)
 				}
 				fmt.Println("hookfill:", note)
 			}
+			fmt.Printf("hookfill: %s: monitored map fields: %s\n", pkg.name, strings.Join(sortedKeys(mapFields), " "))
 		}
 		for _, f := range files {
 			base := filepath.Base(f)
@@ -83,7 +87,7 @@ func main() {
 	}
 	fmt.Printf("hookfill: %d announcement(s) inserted\n", total)
 	fmt.Printf("hookfill: %d statement-level yield points inserted\n", yieldsInserted)
-	fmt.Printf("hookfill: %d lock releases and %d shared-map accesses announced (monitored fields: %s)\n", releasesInserted, accessesInserted, strings.Join(sortedKeys(mapFields), " "))
+	fmt.Printf("hookfill: %d lock releases and %d shared-map accesses announced\n", releasesInserted, accessesInserted)
 }
 
 func fail(err error) {
@@ -170,7 +174,7 @@ func fill(path string) (int, error) {
 					yieldsInserted++
 				}
 			}
-			if trace {
+			if trace && traceLocks {
 				if d, ok := s.(*ast.DeferStmt); ok {
 					// defer x.Unlock(): a second defer, registered later, runs
 					// first: the release is announced just before the unlock
@@ -188,6 +192,8 @@ func fill(path string) (int, error) {
 						}
 					}
 				}
+			}
+			if trace {
 				for _, a := range accesses(fset, s) {
 					out = append(out, a)
 					accessesInserted++
@@ -235,6 +241,7 @@ func fill(path string) (int, error) {
 
 var (
 	trace            bool
+	traceLocks       bool
 	releasesInserted int
 	accessesInserted int
 	mapFields        = map[string]bool{} // names of map-typed struct fields of the package
@@ -572,12 +579,24 @@ func accesses(fset *token.FileSet, s ast.Stmt) []ast.Stmt {
 	for _, p := range parts {
 		scan(p)
 	}
+	var inner []ast.Expr // inner maps of a monitored map that are written: m[a][b] = x writes m[a]
 	for _, l := range lhs {
 		switch v := l.(type) {
 		case *ast.IndexExpr:
 			if sel, ok := v.X.(*ast.SelectorExpr); ok {
 				note(sel, true)
 			} else {
+				base := v.X
+				for {
+					ie, ok := base.(*ast.IndexExpr)
+					if !ok {
+						break
+					}
+					base = ie.X
+				}
+				if sel, ok := base.(*ast.SelectorExpr); ok && mapFields[sel.Sel.Name] && simpleChain(sel.X) && !local[rootName(sel)] {
+					inner = append(inner, v.X)
+				}
 				scan(v.X)
 			}
 			scan(v.Index)
@@ -589,6 +608,12 @@ func accesses(fset *token.FileSet, s ast.Stmt) []ast.Stmt {
 		}
 	}
 	var out []ast.Stmt
+	for _, e := range inner {
+		pos := fset.Position(s.Pos())
+		site := fmt.Sprintf("%s:%d %s", filepath.Base(pos.Filename), pos.Line, exprText(fset, e))
+		out = append(out, &ast.ExprStmt{X: &ast.CallExpr{Fun: ast.NewIdent("simAccess"),
+			Args: []ast.Expr{e, boolIdent(true), &ast.BasicLit{Kind: token.STRING, Value: fmt.Sprintf("%q", site)}}}})
+	}
 	for _, k := range sortedKeys(toSet(acc)) {
 		pos := fset.Position(s.Pos())
 		site := fmt.Sprintf("%s:%d %s", filepath.Base(pos.Filename), pos.Line, k)
